@@ -461,6 +461,10 @@ def check(ctx, rep):
 
     # findings reach a file only under the very path the directory walk yields for it
     rule_location_file_verbatim(ctx, rep)
+    from .c17 import rule_exec_order
+
+    # SAST-driven codemods must not be skipped wholesale because no *find-and-fix* path is selected (default excludes do not apply to them)
+    rule_exec_order(ctx, rep)
     rep.not_covered += [
         "which paths match which glob (fnmatch semantics over trees x patterns)",
         "liveness 'every selected file with a fixable construct is fixed' beyond the lost-update rule evaluated under C18",
